@@ -13,12 +13,21 @@ import (
 // Roughly two thirds of its outputs parse; the rest exercise the error paths.
 
 var soupIdents = []string{"a", "X", "ab", "NAME", "é", "_", "tasky", "taskX", "tasks", "task_a", "task", "t", "join", "exec", "中", ""}
-var soupStrings = []string{`""`, `"a"`, `"a b"`, `" x "`, `"*.go"`, `"#"`, `"{"`, `"}"`, `"a, b"`, `"é"`, `"->"`, `":="`, `"task"`, `"x`, `x"`, `"a\t"`}
+var soupStrings = []string{`""`, `"a"`, `"a b"`, `" x "`, `"*.go"`, `"#"`, `"{"`, `"}"`, `"a, b"`, `"é"`, `"->"`, `":="`, `"task"`, `"x`, `x"`, `"a\t"`, `"100%"`, `"%s%d"`, `"%!v(x)%"`, `"{{.X}}"`, `"\\"`}
 var soupComments = []string{"", " ", "  ", "\t", " a", "a", " doc text", " a  b ", "#", "# x", " task t() {}", " \"q\"", " é", "0", " x := 1"}
 var soupCmds = []string{"task build", "task", "printf [%s] a\\ \\  ", "echo a  ", "echo {{.A |", "upper}} x", "echo {{", "}} y", "a\r", "echo hi\r", "x \r", "a\r\r", "b\r ", "go test ./...", "echo {{.X}}", "a", "echo hi ", "echo \"x\"", "x\t", "echo hi\t ", "ls -la | wc", "echo {{.A}}{{.B}}", "é", "echo #c", "echo }", "1x", "echo {", "echo {{.X}} ", "b  c"}
 var soupSeps = []string{"\n", "\n", "\n", "\n", "\r\n", "\r\n", " ", " ", "", "\n\n", "\t", "\r", "\n \n", " \n"}
 var soupSp = []string{"", "", " ", " ", "\t", "  ", "\n"}
-var soupJunk = Alphabet
+var soupJunk = append(append([]string(nil), Alphabet...), soupStrings...)
+
+// stray writes, now and then, a token where none belongs (a second string after an output, an
+// identifier before a brace, ...): the shapes behind "expected X, found Y" errors.
+func stray(t *rapid.T, b *strings.Builder, label string) {
+	if rapid.IntRange(0, 19).Draw(t, label+"_stray") == 0 {
+		b.WriteString(soupPick(t, label+"_stray_tok", soupJunk))
+		b.WriteString(soupPick(t, label+"_stray_sp", soupSp))
+	}
+}
 
 func soupPick(t *rapid.T, label string, from []string) string {
 	return from[rapid.IntRange(0, len(from)-1).Draw(t, label)]
@@ -88,6 +97,7 @@ func Soup(t *rapid.T) string {
 				b.WriteString(":=")
 			}
 			b.WriteString(soupPick(t, "sp", soupSp))
+			stray(t, &b, "beforerhs")
 			switch rapid.IntRange(0, 5).Draw(t, "rhs") {
 			case 0:
 				b.WriteString(soupIdent(t, "rhsid"))
@@ -111,6 +121,7 @@ func Soup(t *rapid.T) string {
 			b.WriteString(soupPick(t, "sp", soupSp))
 			b.WriteString(soupIdent(t, "tname"))
 			b.WriteString(soupPick(t, "sp", soupSp))
+			stray(t, &b, "aftername")
 			if rapid.IntRange(0, 14).Draw(t, "lparen") != 0 {
 				b.WriteString("(")
 			}
@@ -138,6 +149,7 @@ func Soup(t *rapid.T) string {
 				}
 			}
 			b.WriteString(soupPick(t, "sp", soupSp))
+			stray(t, &b, "beforebrace")
 			if rapid.IntRange(0, 14).Draw(t, "lbrace") != 0 {
 				b.WriteString("{")
 			}
@@ -165,4 +177,34 @@ func Soup(t *rapid.T) string {
 		}
 	}
 	return b.String()
+}
+
+// WithHugeLine puts, once in about forty inputs, a line of roughly 64 KiB (where line-oriented
+// readers give up) in front of, behind, or after the first line of x: as a comment, a string
+// variable, or the command of a task. Sizes are not narrowed just because most lines are short.
+func WithHugeLine(t *rapid.T, x string) string {
+	if rapid.IntRange(0, 39).Draw(t, "huge_line") != 0 {
+		return x
+	}
+	long := strings.Repeat("x", rapid.IntRange(65500, 65600).Draw(t, "huge_len"))
+	var line string
+	switch rapid.IntRange(0, 2).Draw(t, "huge_kind") {
+	case 0:
+		line = "#" + long
+	case 1:
+		line = "HUGE := \"" + long + "\""
+	default:
+		line = "task huge() { echo " + long + " }"
+	}
+	switch rapid.IntRange(0, 2).Draw(t, "huge_where") {
+	case 0:
+		return line + "\n" + x
+	case 1:
+		if i := strings.IndexByte(x, '\n'); i >= 0 {
+			return x[:i+1] + line + "\n" + x[i+1:]
+		}
+		return x + "\n" + line
+	default:
+		return x + "\n" + line + "\n"
+	}
 }
